@@ -676,15 +676,17 @@ func writeChunkedSegment(ctx context.Context, log *slog.Logger, w http.ResponseW
 	if err != nil {
 		return fmt.Errorf("convertToLive: %w", err)
 	}
-	if so.seg == nil {
-		return fmt.Errorf("no segment data for chunked segment")
-	}
-
 	w.Header().Set("Content-Type", so.meta.rep.SegmentType())
-	if isImage(segmentPart) {
+	if isImage(segmentPart) { // Thumbnails are written as a whole
 		w.Header().Set("Content-Length", strconv.Itoa(len(so.data)))
 		_, err = w.Write(so.data)
-		return fmt.Errorf("could not write image segment: %w", err)
+		if err != nil {
+			return fmt.Errorf("could not write image segment: %w", err)
+		}
+		return nil
+	}
+	if so.seg == nil {
+		return fmt.Errorf("no segment data for chunked segment")
 	}
 	rep := so.meta.rep
 	seg := so.seg
